@@ -27,6 +27,7 @@ type Family struct {
 	Calls     []Call            `json:"calls"`     // builder call alphabet (MC_Policy family)
 	CtorPairs [][]Call          `json:"ctorpairs"` // constructor pairs (MC_Policy family)
 	Docs      []ioDoc           `json:"docs"`      // documents (MC_IO family)
+	PairSweep bool              `json:"pairsweep"` // ordered-pair sweep on fresh policies (families with element patterns)
 }
 
 func LoadFamily(path string) (*Family, error) {
@@ -590,7 +591,7 @@ func replayAttrsCase(fam *Family, c *attrsCase, res *RunResult, rng *rand.Rand, 
 	cache map[int]*polCacheEntry, seenV, seenNT map[string]bool) {
 	res.Cases++
 	memGuard(cache, res.Cases)
-	if !sweptRecipes[c.Rid] {
+	if fam.PairSweep && !sweptRecipes[c.Rid] {
 		sweptRecipes[c.Rid] = true
 		pairSweep(fam, c.Rid, res, props, seenV)
 	}
